@@ -1,7 +1,302 @@
-//! stub
-use serde_json::Value;
-use crate::engine::Ctx;
-pub const RULE: &str = "";
-pub const ASSUMPTIONS: &[&str] = &[];
-pub fn run(_ctx: &Ctx) {}
-pub fn replay(_part: &str, _case: &Value) -> Result<(), String> { Err("not implemented".into()) }
+//! C06 — page pixel operations touch exactly the addressed pixel.
+
+use flipdot_core::{Page, PageId};
+use proptest::prelude::*;
+use serde::{Deserialize, Serialize};
+use serde_json::{json, Value};
+
+use crate::engine::{catch, h64, par_range, run_generated, Ctx, Stats};
+use crate::oracle::page::{data_len, pixel_mask, read_pixel, total_len, REAL_SIZES};
+
+pub const RULE: &str = "cases are (width, height, origin, operation sequence): sizes from an exhaustive box (0..=24 x 0..=26 quick, 0..=48 x 0..=40 thorough), the 11 real sign sizes and 1x255, 255x1, 300x9, 1000x64; origin Page::new or Page::from_bytes over a borrowed buffer with generated header/pixel/padding bytes; sequences of 0..40 Set/SetAll/Get with ~25 % of coordinates just outside the bounds (x=w, y=h, +1, next multiple of 8, u32::MAX); judged after every step against a boolean grid and the initial bytes (every pixel, id, dimensions, length, header, padding; out-of-bounds must panic and leave the bytes identical). An exhaustive sweep sets/clears every coordinate of [0,w]x[0,h] on all-off and all-on pages of every box size. Non-trivial = a page with w*h > 0 whose sequence has an effective set and an out-of-bounds probe at the exact edge, or whose height is not a multiple of 8; distinct by hash of the case (sweep: by construction)";
+pub const ASSUMPTIONS: &[&str] = &[
+    "initial pixel values of a page built over raw bytes are read with the documented layout (byte 4 + x*ceil(h/8) + y/8, bit y%8)",
+    "the unused high bits of a column's last byte are not constrained for in-bounds operations (the statement is silent and set_all_pixels fills whole bytes)",
+];
+
+#[derive(Serialize, Deserialize, Debug, Clone, Copy, PartialEq, Eq, Hash)]
+pub enum Op {
+    Set(u32, u32, bool),
+    SetAll(bool),
+    Get(u32, u32),
+}
+
+#[derive(Serialize, Deserialize, Debug, Clone, PartialEq, Eq, Hash)]
+pub enum Origin {
+    New { id: u8 },
+    /// page built with from_bytes over a borrowed buffer whose bytes are h64(seed, index)
+    Borrowed { seed: u64 },
+}
+
+#[derive(Serialize, Deserialize, Debug, Clone, PartialEq, Eq, Hash)]
+pub struct PageCase {
+    pub w: u32,
+    pub h: u32,
+    pub origin: Origin,
+    pub ops: Vec<Op>,
+}
+
+fn initial_bytes(c: &PageCase) -> Vec<u8> {
+    match c.origin {
+        Origin::New { id } => crate::oracle::page::new_bytes(id, c.w, c.h),
+        Origin::Borrowed { seed } => (0..total_len(c.w, c.h)).map(|i| h64(&(seed, i as u64)) as u8).collect(),
+    }
+}
+
+fn compare_page(page: &Page<'_>, c: &PageCase, grid: &[bool], initial: &[u8], exact_against: Option<&[u8]>) -> Result<(), String> {
+    let bytes = page.as_bytes();
+    if page.width() != c.w || page.height() != c.h {
+        return Err(format!("dimensions changed to {}x{}", page.width(), page.height()));
+    }
+    if bytes.len() != initial.len() {
+        return Err(format!("byte length changed from {} to {}", initial.len(), bytes.len()));
+    }
+    if page.id() != PageId(initial[0]) {
+        return Err(format!("page id changed from {} to {}", initial[0], page.id().0));
+    }
+    if bytes[..4] != initial[..4] {
+        return Err(format!("header changed from {:?} to {:?}", &initial[..4], &bytes[..4]));
+    }
+    let d = data_len(c.w, c.h);
+    if bytes[d..] != initial[d..] {
+        return Err(format!("padding changed from {:?} to {:?}", &initial[d..], &bytes[d..]));
+    }
+    if let Some(prev) = exact_against {
+        if bytes != prev {
+            return Err("a panicking out-of-bounds call modified the page bytes".into());
+        }
+    }
+    for x in 0..c.w {
+        for y in 0..c.h {
+            let got = page.get_pixel(x, y);
+            let want = grid[(x * c.h + y) as usize];
+            if got != want {
+                return Err(format!("pixel ({x},{y}) reads {got} but should be {want}"));
+            }
+        }
+    }
+    Ok(())
+}
+
+pub fn check_page(c: &PageCase, st: &mut Stats) -> Result<(), String> {
+    let initial = initial_bytes(c);
+    let borrowed_buf = initial.clone();
+    let mut page: Page<'_> = match c.origin {
+        Origin::New { id } => catch(|| Page::new(PageId(id), c.w, c.h)).map_err(|p| format!("Page::new panicked: {p}"))?,
+        Origin::Borrowed { .. } => match catch(|| Page::from_bytes(c.w, c.h, &borrowed_buf[..])) {
+            Ok(Ok(p)) => p,
+            Ok(Err(e)) => return Err(format!("from_bytes rejected a buffer of the padded size: {e}")),
+            Err(p) => return Err(format!("from_bytes panicked: {p}")),
+        },
+    };
+    // model
+    let mut grid: Vec<bool> = Vec::with_capacity((c.w * c.h) as usize);
+    for x in 0..c.w {
+        for y in 0..c.h {
+            grid.push(read_pixel(&initial, x, y, c.h));
+        }
+    }
+    catch(|| compare_page(&page, c, &grid, &initial, None))
+        .map_err(|p| format!("panic while reading a fresh page: {p}"))?
+        .map_err(|m| format!("fresh page: {m}"))?;
+    st.eval();
+
+    let mut effective_set = false;
+    let mut edge_probe = false;
+    for (i, op) in c.ops.iter().enumerate() {
+        let before = page.as_bytes().to_vec();
+        match *op {
+            Op::Set(x, y, v) => {
+                let inb = x < c.w && y < c.h;
+                let r = catch(|| page.set_pixel(x, y, v));
+                match (inb, r) {
+                    (true, Ok(())) => {
+                        let idx = (x * c.h + y) as usize;
+                        if grid[idx] != v {
+                            effective_set = true;
+                        }
+                        grid[idx] = v;
+                        catch(|| compare_page(&page, c, &grid, &initial, None))
+                            .map_err(|p| format!("step {i} {op:?}: panic while reading back: {p}"))?
+                            .map_err(|m| format!("step {i} {op:?}: {m}"))?;
+                    }
+                    (true, Err(p)) => return Err(format!("step {i} {op:?}: in-bounds set_pixel panicked on a {}x{} page: {p}", c.w, c.h)),
+                    (false, Ok(())) => {
+                        return Err(format!(
+                            "step {i} {op:?}: set_pixel outside a {}x{} page returned instead of panicking",
+                            c.w, c.h
+                        ))
+                    }
+                    (false, Err(_)) => {
+                        if x == c.w || y == c.h {
+                            edge_probe = true;
+                        }
+                        catch(|| compare_page(&page, c, &grid, &initial, Some(&before)))
+                            .map_err(|p| format!("step {i} {op:?}: panic while reading back: {p}"))?
+                            .map_err(|m| format!("step {i} {op:?}: {m}"))?;
+                    }
+                }
+            }
+            Op::SetAll(v) => {
+                catch(|| page.set_all_pixels(v)).map_err(|p| format!("step {i} {op:?}: set_all_pixels panicked: {p}"))?;
+                if grid.iter().any(|&g| g != v) {
+                    effective_set = true;
+                }
+                for g in grid.iter_mut() {
+                    *g = v;
+                }
+                catch(|| compare_page(&page, c, &grid, &initial, None))
+                    .map_err(|p| format!("step {i} {op:?}: panic while reading back: {p}"))?
+                    .map_err(|m| format!("step {i} {op:?}: {m}"))?;
+            }
+            Op::Get(x, y) => {
+                let inb = x < c.w && y < c.h;
+                let r = catch(|| page.get_pixel(x, y));
+                match (inb, r) {
+                    (true, Ok(got)) => {
+                        let want = grid[(x * c.h + y) as usize];
+                        if got != want {
+                            return Err(format!("step {i} {op:?}: reads {got}, should be {want}"));
+                        }
+                    }
+                    (true, Err(p)) => return Err(format!("step {i} {op:?}: in-bounds get_pixel panicked on a {}x{} page: {p}", c.w, c.h)),
+                    (false, Ok(got)) => {
+                        return Err(format!(
+                            "step {i} {op:?}: get_pixel outside a {}x{} page returned {got} instead of panicking",
+                            c.w, c.h
+                        ))
+                    }
+                    (false, Err(_)) => {
+                        if x == c.w || y == c.h {
+                            edge_probe = true;
+                        }
+                    }
+                }
+                if page.as_bytes() != &before[..] {
+                    return Err(format!("step {i} {op:?}: get_pixel modified the page"));
+                }
+            }
+        }
+        st.eval();
+    }
+    // unused high bits: never *required* to keep their value, but report the class for the evidence
+    let d = data_len(c.w, c.h);
+    if (4..d).any(|k| pixel_mask(k, c.h) != 0xFF) {
+        st.class("height-not-multiple-of-8");
+    }
+    let nontrivial = (c.w * c.h > 0 && effective_set && edge_probe) || (c.h % 8 != 0 && c.w > 0);
+    if nontrivial {
+        st.nontrivial(h64(c));
+        st.class("nontrivial");
+    }
+    st.class(match c.origin {
+        Origin::New { .. } => "origin:new",
+        Origin::Borrowed { .. } => "origin:borrowed-bytes",
+    });
+    if st.want_sample() && nontrivial && c.ops.len() > 2 {
+        st.sample(json!({"w": c.w, "h": c.h, "origin": c.origin, "ops": c.ops.iter().take(8).collect::<Vec<_>>(), "n_ops": c.ops.len()}));
+    }
+    Ok(())
+}
+
+fn dims_strategy(boxw: u32, boxh: u32) -> impl Strategy<Value = (u32, u32)> {
+    prop_oneof![
+        12 => (0..=boxw, 0..=boxh),
+        3 => proptest::sample::select(REAL_SIZES.to_vec()),
+        1 => proptest::sample::select(vec![(1u32, 255u32), (255, 1), (300, 9), (1000, 64)]),
+    ]
+}
+
+fn coord_strategy(w: u32, h: u32) -> impl Strategy<Value = (u32, u32)> {
+    let next8 = (h / 8 + 1) * 8;
+    let xs = prop_oneof![
+        12 => 0..=w.saturating_sub(1),
+        2 => Just(w),
+        1 => Just(w + 1),
+        1 => Just(u32::MAX),
+    ];
+    let ys = prop_oneof![
+        12 => 0..=h.saturating_sub(1),
+        2 => Just(h),
+        1 => Just(h + 1),
+        1 => Just(next8),
+        1 => Just(next8 - 1),
+        1 => Just(u32::MAX),
+    ];
+    (xs, ys)
+}
+
+fn case_strategy(boxw: u32, boxh: u32) -> impl Strategy<Value = PageCase> {
+    (dims_strategy(boxw, boxh), prop_oneof![any::<u8>().prop_map(|id| Origin::New { id }), any::<u64>().prop_map(|seed| Origin::Borrowed { seed })])
+        .prop_flat_map(|((w, h), origin)| {
+            let maxops = if (w as u64) * (h as u64) > 5000 { 6 } else { 40 };
+            let op = prop_oneof![
+                6 => (coord_strategy(w, h), any::<bool>()).prop_map(|((x, y), v)| Op::Set(x, y, v)),
+                1 => any::<bool>().prop_map(Op::SetAll),
+                3 => coord_strategy(w, h).prop_map(|(x, y)| Op::Get(x, y)),
+            ];
+            (Just((w, h, origin)), proptest::collection::vec(op, 0..=maxops))
+        })
+        .prop_map(|((w, h, origin), ops)| PageCase { w, h, origin, ops })
+}
+
+pub fn run(ctx: &Ctx) {
+    let (bw, bh) = ctx.tier.pick((24u32, 26u32), (48u32, 40u32));
+    // exhaustive sweep: every size in the box, every coordinate in [0,w]x[0,h], set and clear, all-off and all-on
+    par_range(ctx, "sweep-box", ((bw + 1) * (bh + 1)) as u64, |i, st| {
+        let w = i as u32 / (bh + 1);
+        let h = i as u32 % (bh + 1);
+        let mut n = 0u64;
+        for all_on in [false, true] {
+            for x in 0..=w {
+                for y in 0..=h {
+                    for v in [true, false] {
+                        let mut ops = vec![];
+                        if all_on {
+                            ops.push(Op::SetAll(true));
+                        }
+                        ops.push(Op::Set(x, y, v));
+                        ops.push(Op::Get(x, y));
+                        let c = PageCase { w, h, origin: Origin::New { id: (w * 7 + h) as u8 }, ops };
+                        check_page(&c, st).map_err(|m| (serde_json::to_value(&c).unwrap(), m))?;
+                        n += 1;
+                    }
+                }
+            }
+        }
+        st.nontrivial_enumerated(n);
+        Ok(())
+    });
+    ctx.part_done("sweep-box", true, json!({"box": [bw, bh], "what": "every size x every coordinate in [0,w]x[0,h] x set/clear x all-off/all-on"}));
+
+    // the real sizes and the large ones: every edge coordinate
+    let mut sizes: Vec<(u32, u32)> = REAL_SIZES.to_vec();
+    sizes.extend_from_slice(&[(1, 255), (255, 1), (300, 9), (1000, 64)]);
+    par_range(ctx, "edges-real-sizes", sizes.len() as u64, |i, st| {
+        let (w, h) = sizes[i as usize];
+        let next8 = (h / 8 + 1) * 8;
+        for seed in 0..2u64 {
+            let mut ops = vec![];
+            for (x, y) in [(w, 0), (0, h), (w, h), (w - 1, h), (w, h - 1), (0, next8 - 1), (0, next8), (u32::MAX, 0), (0, u32::MAX), (w - 1, h - 1), (0, 0)] {
+                ops.push(Op::Set(x, y, true));
+                ops.push(Op::Get(x, y));
+                ops.push(Op::Set(x, y, false));
+            }
+            ops.push(Op::SetAll(true));
+            ops.push(Op::Set(w - 1, h - 1, false));
+            ops.push(Op::SetAll(false));
+            let origin = if seed == 0 { Origin::New { id: 9 } } else { Origin::Borrowed { seed: i * 31 + 5 } };
+            let c = PageCase { w, h, origin, ops };
+            check_page(&c, st).map_err(|m| (serde_json::to_value(&c).unwrap(), m))?;
+        }
+        Ok(())
+    });
+    ctx.part_done("edges-real-sizes", true, json!("11 real sizes + 4 large sizes x edge coordinates x new/borrowed"));
+
+    run_generated(ctx, "sequences", ctx.tier.pick(200_000, 2_000_000), move || case_strategy(bw, bh), |c, st| check_page(c, st));
+}
+
+pub fn replay(_part: &str, case: &Value) -> Result<(), String> {
+    let c: PageCase = serde_json::from_value(case.clone()).map_err(|e| format!("bad case: {e}"))?;
+    check_page(&c, &mut Stats::new())
+}
